@@ -346,6 +346,16 @@ impl World {
             }
         }
         violations.append(&mut found);
+        if is_restart {
+            // whatever is wrong right after a reload is the round trip's doing
+            let owner = restart_owner(op);
+            for v in violations.iter_mut() {
+                if v.owner != owner {
+                    v.key = format!("reload:{}", v.key);
+                    v.owner = owner;
+                }
+            }
+        }
         violations
     }
 
@@ -484,8 +494,13 @@ fn dump_diff(a: &stam::verif_hooks::IndexDump, b: &stam::verif_hooks::IndexDump)
     s
 }
 
-/// Runs a fixed trace (replay / minimisation)
+/// Runs a fixed trace (replay / minimisation), with restart attribution
 pub fn run_trace(trace: &Trace) -> RunResult {
+    let r = run_trace_raw(trace);
+    attribute(trace, r)
+}
+
+pub fn run_trace_raw(trace: &Trace) -> RunResult {
     let mut world = World::new(trace.world.clone());
     let mut stats = RunStats::default();
     for (i, op) in trace.ops.iter().enumerate() {
@@ -542,15 +557,16 @@ pub fn run_generated(run_seed: u64, profile: &dyn Fn(&mut Rng, &mut GenCfg, &mut
         if !v.is_empty() {
             stats.final_fingerprint = world.model.fingerprint();
             stats.faults_fired = world.fs.fired();
-            return (
-                Trace { world: wcfg, ops },
-                gcfg,
+            let trace = Trace { world: wcfg, ops };
+            let result = attribute(
+                &trace,
                 RunResult {
                     violations: v,
                     step: Some(i),
                     stats,
                 },
             );
+            return (trace, gcfg, result);
         }
     }
     stats.final_fingerprint = world.model.fingerprint();
@@ -564,4 +580,44 @@ pub fn run_generated(run_seed: u64, profile: &dyn Fn(&mut Rng, &mut GenCfg, &mut
             stats,
         },
     )
+}
+
+/// Differential attribution: a violation at a later step of a run that went through restarts is
+/// owned by the round-trip property of the last restart if the same history without restarts
+/// does not show it (a reload that "looks equal" but has subtly different internal state).
+pub fn attribute(trace: &Trace, result: RunResult) -> RunResult {
+    let Some(step) = result.step else { return result };
+    if matches!(trace.ops[step], Op::Restart { .. }) {
+        return result;
+    }
+    let last_restart = trace.ops[..step].iter().rev().find_map(|op| match op {
+        Op::Restart { format } => Some(*format),
+        _ => None,
+    });
+    let Some(format) = last_restart else { return result };
+    let mut without = trace.clone();
+    without.ops.truncate(step + 1);
+    without.ops.retain(|op| !matches!(op, Op::Restart { .. }));
+    let r2 = run_trace_raw(&without);
+    let same = match r2.step {
+        Some(s2) if s2 + 1 == without.ops.len() => r2
+            .violations
+            .iter()
+            .any(|v| result.violations.iter().any(|w| w.signature() == v.signature())),
+        _ => false,
+    };
+    if same {
+        return result;
+    }
+    let owner = match format {
+        Format::Cbor => "C11",
+        Format::Csv => "C15",
+        _ => "C05",
+    };
+    let mut result = result;
+    for v in result.violations.iter_mut() {
+        v.key = format!("after_restart:{}", v.key);
+        v.owner = owner;
+    }
+    result
 }
